@@ -25,7 +25,8 @@ type TAct struct {
 	Reader    string            `json:"reader,omitempty"`
 	SlowMs    int               `json:"slow_ms,omitempty"`
 	HandlerMs int               `json:"handler_ms,omitempty"`
-	SelfClose int               `json:"self_close,omitempty"` // monitor: Close() from inside its n-th callback
+	SelfClose int               `json:"self_close,omitempty"` // monitor: an API call (CbAct, default Close()) from inside its n-th callback
+	CbAct     string            `json:"cb_act,omitempty"`
 	Block     bool              `json:"block,omitempty"`
 	Async     bool              `json:"async,omitempty"`
 }
@@ -144,6 +145,16 @@ func runTree(sci interface{}) {
 	h.PerNodeOverflow = sc.Prop == "C10"
 	t := &treeRun{sc: sc, h: h, srv: srv, asyncDone: make(chan struct{}, 64)}
 	h.RootDown = t.rootDown
+	h.OnCbAct = func(n *world.NodeRT, act string) {
+		// an API call from a monitor's goroutine: asynchronous to the script
+		switch {
+		case act == "close-root", act == "close-parent" && n.Parent == nil:
+			t.trigRoot = true
+			t.triggered = true
+		case act == "close-parent", act == "close-self":
+			t.triggered = true
+		}
+	}
 	failAt := 0
 	for k, v := range srv.F.ListScript {
 		if v != "" && v != "hang" && (failAt == 0 || k < failAt) {
@@ -266,6 +277,7 @@ func (t *treeRun) act(a TAct) {
 		n.SlowEvery = ms(a.SlowMs)
 		n.HandlerMs = a.HandlerMs
 		n.SelfCloseAt = a.SelfClose
+		n.CbAct = a.CbAct
 		if a.Block {
 			n.BlockHandler = make(chan struct{})
 		}
@@ -479,15 +491,24 @@ func (t *treeRun) listFailureChecks() {
 	per := sc.period()
 	lat := ms(sc.ListLatMs[0] + sc.ListLatMs[1])
 	bound := time.Duration(t.failAt+1)*(per+per/5+lat) + 2*time.Second
-	if !world.WaitClosed(h.Ctrl.Done(), bound) {
+	if t.trigRoot {
+		// a monitor callback closed the controller: the scripted failure may
+		// never be reached, and a deliberate close reports no failure
+		return
+	}
+	closed := world.WaitClosed(h.Ctrl.Done(), bound)
+	if t.trigRoot {
+		return
+	}
+	if !closed {
 		detsim.Fail("list-failure-not-fatal", "list#%d was scripted to fail (%s) but the controller is still running %v later\n%s", t.failAt, srv.F.ListScript[t.failAt], bound, srv.Summary())
 	}
 	err := h.Ctrl.Error()
 	if err == nil {
 		detsim.Fail("list-failure-not-reported", "list#%d failed (%s), the controller stopped, but Error() is nil", t.failAt, srv.F.ListScript[t.failAt])
 	}
-	if strings.HasPrefix(srv.F.ListScript[t.failAt], "error") && !strings.Contains(err.Error(), world.ErrInjectedList.Error()) {
-		detsim.Fail("list-failure-not-reported", "list#%d failed with %q but Error() = %q does not report the cause", t.failAt, world.ErrInjectedList.Error(), err.Error())
+	if kind := srv.F.ListScript[t.failAt]; strings.HasPrefix(kind, "error") && !strings.Contains(err.Error(), world.ListErrorText(kind)) {
+		detsim.Fail("list-failure-not-reported", "list#%d failed with %q but Error() = %q does not report the cause", t.failAt, world.ListErrorText(kind), err.Error())
 	}
 	if t.failAt == 1 && detsim.IsClosed(h.Ctrl.Ready()) {
 		detsim.Fail("ready-after-failed-first-list", "the first list failed but Ready() closed")
